@@ -9,7 +9,7 @@ cd "$(dirname "$0")"
 unset GOTOOLCHAIN GOSUMDB GOWORK
 export GOFLAGS=-mod=mod GOPROXY=off GOWORK=off
 prop="$1"; tier="${2:-${VERIF_TIER:-quick}}"
-if [ ! -x bin/mysyncsa ] || [ -n "$(find checker -name '*.go' -newer bin/mysyncsa -not -path '*/vendor/*' | head -1)" ]; then
+if [ ! -x bin/mysyncsa ] || [ -n "$(find checker \( -name '*.go' -o -name '*.txt' \) -newer bin/mysyncsa -not -path '*/vendor/*' | head -1)" ]; then
   ./setup.sh >/dev/null || { echo "ANALYSIS-BROKEN property=$prop checker does not build"; exit 2; }
 fi
 bin/mysyncsa check -tier "$tier" "$prop"
